@@ -17,6 +17,18 @@ def claim(pid, text, note, technique, ref):
     CHECKS[pid] = dict(text=text, note=note, technique=technique, ref=ref)
 
 
+claim('C07',
+      'TLC model-checks Slash.tla: a two-step client behaviour (request; follow the Location) over every path shape (<= 3 segments, '
+      'slash runs 1-2, trailing 0-2), slash-mode inheritance (application / route / inherit flag), 7 route kinds (root, static, '
+      'single, multi x branch/leaf) and methods; invariants CanonIdempotent, RedirectOnlyWhen, NeverInStrictOrRewrite, OneHop, '
+      'QueryUnchanged, RewriteExecutes. Bound to the code at the WSGI level (PATH_INFO = decoded path, QUERY_STRING raw): '
+      'TLC-generated behaviours are replayed with segment ids instantiated from 21 URL-significant texts (? # % %41 space ; & = + '
+      'quotes non-ASCII), the Location is parsed/unquoted and followed; random longer exchanges are recorded and judged by TLC (Slash_Trace).',
+      'Trusted: TLC; urllib.parse for splitting/unquoting the Location; query equality at the WSGI level; the request layer '
+      '(werkzeug Request.path) collapses the leading slash run, modelled as Seen().',
+      'TLA+ spec (Slash.tla) + TLC exhaustive + two-step replay of TLC behaviours + record validation (Slash_Trace.tla)',
+      'DESIGN.md 3/C07')
+
 claim('C19',
       'TLC model-checks Reservoir.tla (algorithm shaped like Reservoir.add/resize refines the property relation; '
       'Bounded/OnlyAdded/NeverRaises/ExactCount in every reachable state, all replacement indices, all resize points) '
